@@ -175,8 +175,12 @@ def run_trtb(case):
             lo, hi = max(F(0), lo - size), max(F(0), hi - size)
             green_tau.append(taus[k])
             green_size.append(size)
-        else:
+        elif colour == "yellow":
+            # the committed bucket was short of `size`; it may have been emptied or left alone
             lo, hi = F(0), min(hi, F(size))
+        else:
+            # red is decided on the peak bucket alone: nothing is learnt about the committed level
+            lo = F(0)
     # green traffic conforms to (CIR, CBS)
     n = len(green_size)
     tol = 0 if exact else Fraction(1, 10 ** 6)
